@@ -1285,15 +1285,15 @@ def _shapes(max_total, max_packets):
 def _frag_jobs(quick):
     max_total = 14 if quick else 19
     jobs = []
-    sid = 0
     for shape in _shapes(max_total, 4):
         n = 4 * len(shape) + sum(shape)
         fills = ['ramp']
         if n <= (11 if quick else 18):
             fills.append('mimic')
-        for fill in fills:
+        for fi, fill in enumerate(fills):
+            # stream id independent of the tier, so that thorough re-runs exactly the quick streams
+            sid = 2 * sum((ln + 1) * 23 ** i for i, ln in enumerate(shape)) + fi
             jobs.append(('frag', (sid, shape, fill, shape == (3, 0))))
-            sid += 1
     # biggest first for load balance, the sampling job in front
     jobs.sort(key=lambda j: (not j[1][3], -(4 * len(j[1][1]) + sum(j[1][1]))))
     return jobs, max_total
